@@ -438,3 +438,23 @@ def rule_chunking(rep, tier):
     for d in modecheck.run_cases("C07", rid, tier, cases, None):
         rep.merge(d)
     rep.floor_discharged(rid, int(0.9 * len(cases)))
+    # D6: every incremental family against the library's own one-shot function under a spread of call histories
+    rid = "C07.D6"
+    rep.rule(rid, "incremental hash / XOF / PRF / KMAC / KDF / HMAC / HKDF calls give the one-shot result however input and output are split (bounded shapes)")
+    sizes = {"quick": [(9, 33)], "thorough": [(0, 1), (1, 8), (9, 33), (17, 41), (40, 70)]}[tier]
+    src = {"hash": "ascon_hash_update", "hasha": "ascon_hasha_update", "xof": "ascon_xof_squeeze", "xofa": "ascon_xofa_squeeze",
+           "prf": "ascon_prf_squeeze", "kmac": "ascon_kmac_squeeze", "kmaca": "ascon_kmaca_squeeze",
+           "kdf": "ascon_kdf_squeeze", "kdfa": "ascon_kdfa_squeeze", "hmac": "ascon_hmac_update", "hmaca": "ascon_hmaca_update",
+           "hkdf": "ascon_hkdf_expand", "hkdfa": "ascon_hkdfa_expand"}
+    cases = []
+    for js, cname, layout, maxs, units in prep:
+        for fam in modecheck.CHUNK_FAMILIES:
+            for (i, o) in sizes:
+                if fam == "prf":
+                    i, o = i * 4 + 1, o + 7
+                if fam in ("hkdf", "hkdfa"):
+                    o = o * 2 + 5
+                cases.append((js, cname, layout, "case_chunk", (fam, i, o), "%s input %d output %d" % (fam, i, o), src[fam]))
+    for d in modecheck.run_cases("C07", rid, tier, cases, None):
+        rep.merge(d)
+    rep.floor_discharged(rid, int(0.9 * len(cases)))
